@@ -519,6 +519,20 @@ prc[c] : lin 1 = wait b; print fin; close self`},
 		src: `prc[x] : rep 1 = print once; close self
 prc[b] : rep 1 = <u, v> <- split x; drop u; fwd self v
 prc[c] : lin 1 = <p, q> <- split b; wait p; wait q; print fin; close self`},
+	{name: "m47", contraction: false,
+		prints: []string{"served", "fin"},
+		before: [][2]string{{"served", "fin"}},
+		src: `type F = lin 1 -* 1
+prc[srv] : F = <x, y> <- recv self; wait x; w : lin 1 <- new (close self); wait w; print served; close y
+prc[a] : lin 1 = close self
+prc[main] : lin 1 = z : lin 1 <- new (send srv<a, self>); wait z; print fin; close self`},
+	{name: "r06", respelled: true, contraction: false,
+		prints: []string{"served", "fin"},
+		before: [][2]string{{"served", "fin"}},
+		src: `type F = lin 1 -* 1
+prc[srv] : F = <x, y> <- recv self; wait x; z : lin 1 <- new (close self); wait z; print served; close y
+prc[a] : lin 1 = close self
+prc[main] : lin 1 = z : lin 1 <- new (send srv<a, self>); wait z; print fin; close self`},
 }
 
 func orderRespected(prints []string, before [][2]string) bool {
@@ -680,6 +694,10 @@ prc[d] : lin 1 = s <- shift b; <x, y> <- recv s; wait x; wait y; close self`},
 	{"z8", "types differ under an up-shift", `prc[c] : lin /\ lin 1 = s <- shift self; close s
 prc[b] : lin /\ lin (1 * 1) = fwd self -c
 prc[d] : lin 1 = l : lin 1 * 1 <- new cast b<self>; <x, y> <- recv l; wait x; wait y; close self`},
+	{"y9", "C06: an up-shift whose continuation is a shift of a different mode", `type T = lin /\ lin (rep /\ rep 1)
+prc[a] : T = x <- shift self; y <- shift x; close y`},
+	{"y10", "C06: a down-shift whose continuation is a shift of a different mode", `type T = rep \/ aff (lin \/ lin 1)
+let f(x : T) : aff 1 = y <- shift x; z <- shift y; wait z; close self`},
 }
 
 // ZZRunIllTyped: every program of illTypedMenu is rejected; if one is accepted it is run (in the
